@@ -308,6 +308,50 @@ def rule_W5(ctx: Ctx) -> None:
                           "decode([]) raises a bare ValueError (min of an empty sequence) instead of returning the empty list: encode/decode are no longer inverse on the empty sequence")
 
 
+def rule_W7(ctx: Ctx) -> None:
+    """encode and decode are mutual inverses, by abstract evaluation on a symbolic vocabulary: for id sequences (the empty one, singletons,
+    repeats) decode then encode gives the ids back, for the list form and for the joined string form"""
+    from sa.fold import EvalRaised, Evaluator, Obj, Unknown
+
+    vocab = ["<A>", "<B>", "(0,0)", "(0,1)", "<C>"]
+    t2i = {t: i for i, t in enumerate(vocab)}
+    seqs = [[], [0], [4], [2, 0, 1], [1, 1, 3], [3, 2, 2, 4, 0]]
+    for owner, static in ((f"{MT}.MazeTokenizerModular", True), (f"{MT}.MazeTokenizer", False)):
+        enc = ctx.index.func(f"{owner}.encode")
+        dec = ctx.index.func(f"{owner}.decode")
+        me = Obj("self", {"tokenizer_map": dict(t2i), "token_arr": list(vocab), "vocab_size": len(vocab)})
+
+        def call(fn, args):
+            env = {"VOCAB_TOKEN_TO_INDEX": dict(t2i), "VOCAB_LIST": list(vocab)}
+            ps = fn.params()
+            if not static:
+                env[ps[0]] = me
+                ps = ps[1:]
+            for p_ in ps:
+                d_ = fn.param_default(p_)
+                if d_ is not None:
+                    env[p_] = Evaluator().ev(d_, {})
+            for p_, a_ in zip(ps, args):
+                env[p_] = a_
+            return Evaluator().run_body(X.body_wo_doc(fn.node), env)
+        bad, unk = [], []
+        for ids in seqs:
+            for joined in (False, True):
+                try:
+                    text = call(dec, [list(ids), joined])
+                    back = call(enc, [text])
+                except EvalRaised as e:
+                    back = f"raises {e.exc_name}"
+                except Unknown as e:
+                    unk.append(str(e)[:140])
+                    continue
+                if back != ids:
+                    bad.append({"ids": ids, "joined_tokens": joined, "encode(decode(ids))": back})
+        ctx.judge(enc, False if bad else None if unk else True, {"id_sequences": len(seqs), "forms": ["list", "joined string"], "deviations": bad[:3], "undecided": unk[:2]},
+                  "encode(decode(ids, joined_tokens=J)) == ids for every id sequence, the empty one included, in the list form and in the joined-string form",
+                  "encode and decode are not mutual inverses (e.g. the empty sequence joined to '' no longer encodes to [])")
+
+
 def rule_W6(ctx: Ctx) -> None:
     m = ctx.index.module(MT)
     v = m.assigns.get("_NDINDEX_FUNC_MAP")
@@ -410,6 +454,7 @@ RULES = [
     Rule("C14.W3", rule_W3, floor=1, doc="corner-first prefix lemma"),
     Rule("C14.W4", rule_W4, floor=8, doc="codec inverse by construction"),
     Rule("C14.W5", rule_W5, floor=6, doc="error translation, both sides"),
+    Rule("C14.W7", rule_W7, floor=2, doc="encode / decode mutual inverses by abstract evaluation on a symbolic vocabulary (list and joined-string forms, empty sequence)"),
     Rule("C14.W6", rule_W6, floor=5, doc="legacy vocabularies"),
 ]
 
